@@ -165,7 +165,8 @@ def run_case(case):
         sc.setup_agents()
         C.setup_repo(sc, 3, 10)
         for k in range(rng.choice([2, 3])):
-            op = rng.choice(["commit", "partial", "amend", "amend-leftover", "rebase", "cherry", "squash", "reset", "stash"])
+            op = rng.choice(["commit", "partial", "amend", "amend-leftover", "rebase", "cherry", "squash", "reset", "stash"] +
+                            (["ci"] if mode not in ("exclude", "include-miss") else []))   # those modes need a (fake) remote URL of their own
             where = "op %d %s" % (k, op)
             sc.do_edit(author=rng.choice(sc.sessions))
             if op == "commit":
@@ -197,7 +198,7 @@ def run_case(case):
                 sc.commit_all("after-stash")
             else:
                 sc.commit_all("pre")
-                {"rebase": sc.op_rebase, "cherry": sc.op_cherry_pick, "squash": sc.op_squash_merge}[op]()
+                {"rebase": sc.op_rebase, "cherry": sc.op_cherry_pick, "squash": sc.op_squash_merge, "ci": sc.op_ci_rewrite}[op]()
             sc.after_step(where)
             if sc.viol or sc.inconclusive:
                 break
